@@ -174,7 +174,8 @@ func evaluate(v *verdict, cs caseSpec, conf e2e.Conf, grid []item, byPath map[st
 			classes[fmt.Sprintf("%d|seed-page", e.Status)] = true
 		}
 		if !e.Sent {
-			add("engine:response-not-fully-sent", fmt.Sprintf("the origin could not send the whole response for %s (client went away)", e.URL), it)
+			// the client went away before the origin had sent everything: "what the server sent" is not defined
+			v.Incomplete = append(v.Incomplete, fmt.Sprintf("%s (status %d, %d entity bytes)", e.URL, e.Status, e.EntityLen))
 			continue
 		}
 		if rejectedBy(conf, *e) {
